@@ -239,21 +239,29 @@ pub fn child_main(args: &[String]) -> i32 {
         None => return 2,
     };
     let calls: usize = args.get(2).and_then(|s| s.parse().ok()).unwrap_or(16);
-    let plan = plan_b(n, seed, 1, calls, 1);
-    let mut st = Stats::default();
-    let r = if n == 512 {
-        signers::regenerate_keys::<V512>(&plan).ok().map(|k| collect::<V512>(&plan, k, 0, &mut st))
-    } else {
-        signers::regenerate_keys::<V1024>(&plan).ok().map(|k| collect::<V1024>(&plan, k, 0, &mut st))
-    };
+    // what a small program does: generate the key from its seed, then sign - all on the main
+    // thread of a fresh process, so that the seeded key generation is the first thing that
+    // touches any generator on this thread
+    fn go<V: Variant>(seed: [u8; 32], calls: usize) -> Option<Vec<[u8; 40]>> {
+        let (sk, _pk) = world::keygen_sim::<V>(seed, None, None).0.ok()?;
+        let msg = b"the same message, signed again and again".to_vec();
+        let real = world::SignPlan { stream_seed: 0, mode: None, fire: vec![] };
+        let mut out = Vec::new();
+        for _ in 0..calls {
+            let sig = world::sign_sim::<V>(&sk, &msg, &real, None).0.ok()?;
+            out.push(salt_of(&V::sig_to_bytes(&sig))?);
+        }
+        Some(out)
+    }
+    let r = if n == 512 { go::<V512>(seed, calls) } else { go::<V1024>(seed, calls) };
     match r {
-        Some(Ok(salts)) => {
-            for (_t, s, _b) in salts {
+        Some(salts) => {
+            for s in salts {
                 println!("SALT {}", hex(&s));
             }
             0
         }
-        _ => 2,
+        None => 2,
     }
 }
 
@@ -297,6 +305,22 @@ fn run_b_inproc<V: Variant>(plan: &WorldPlan, long: usize, st: &mut Stats) -> Re
         sign(sk, format!("long-history-{}", i), &mut all);
     }
     st.add("b.long_history_salts", long as u64);
+    // many short-lived OS threads, one after another, each signing once with the shared key
+    let nthreads = if long >= 10000 { 1200 } else { 200 };
+    let shared = Arc::new(sk.clone());
+    for i in 0..nthreads {
+        let k = shared.clone();
+        let m = msg.clone();
+        let r = std::thread::spawn(move || {
+            let real = world::SignPlan { stream_seed: 0, mode: None, fire: vec![] };
+            world::sign_sim::<V>(&k, &m, &real, None).0.ok().and_then(|sig| salt_of(&V::sig_to_bytes(&sig)))
+        })
+        .join();
+        if let Ok(Some(s)) = r {
+            all.push((format!("short-lived-thread-{}", i), s));
+        }
+    }
+    st.add("b.short_lived_thread_salts", nthreads as u64);
     Ok(all)
 }
 
@@ -580,7 +604,7 @@ pub fn check(tier: Tier, seed: u64) -> i32 {
         return 2;
     }
     evaluate_a(&mut rep);
-    rep.rule = "a case is one sign call whose salt (bytes 1..41 of the encoded signature) enters the history: (a) under simulator-owned uniform entropy, 1-6 baton-scheduled threads x 4-15 calls over two shared keys with half of the calls on one common message, some with forced retries; (b) under the real thread_rng, threads x calls, fresh child processes, a clone phase (a key that has signed is cloned, original and copy sign alternately) and a long single-thread history (3000 / 1500 calls in quick, 20000 / 8300 in thorough) on one message and one key; every observed salt is non-trivial; distinct = distinct salt values".into();
+    rep.rule = "a case is one sign call whose salt (bytes 1..41 of the encoded signature) enters the history: (a) under simulator-owned uniform entropy, 1-6 baton-scheduled threads x 4-15 calls over two shared keys with half of the calls on one common message, some with forced retries; (b) under the real thread_rng, threads x calls, fresh child processes, fresh processes that generate the key from its seed and sign on their main thread, a clone phase (a key that has signed is cloned, original and copy sign alternately), 200 (1200) short-lived threads signing once each, and a long single-thread history (3000 / 1500 calls in quick, 20000 / 8300 in thorough) on one message and one key; every observed salt is non-trivial; distinct = distinct salt values".into();
     rep.assumptions = vec![
         "(a) masks, by construction, a generator that is not the hooked one; (b) exists for that case and is not bit-replayable (it observes real OS entropy); its verdict depends on the values only through collisions (probability < 2^-200)".into(),
         "bit balance: every one of the 320 salt bit positions must be set in N/2 +- 6.3*sqrt(N)/2 of N >= 2000 salts".into(),
